@@ -247,8 +247,15 @@ def check_cell_placement(facts, rep):
     cells = {r[0] for r in er}
     want = {'to_string(get(arg1.^self, isize2::isize2{0: arg3, 1: arg2}))', 'to_string(".")'}
     if cells != want:
-        if any(re.match(r'to_string\(get\(arg1\.\^self, isize2::isize2\{0: arg[23], 1: arg[23]\}\)\)$', c) for c in cells):
-            probs.append('the entry for (row, column) reads %s: with rows = j and columns = i the cell must show get(isize2(column, row))' % sorted(cells - {'to_string(".")'}))
+        # whatever wraps it (filter / unwrap_or_else / if): which grid entry does the cell read?
+        reads = set()
+        for c in cells:
+            for m in re.finditer(r'get\(arg1\.\^self, isize2::isize2\{0: (arg[23]), 1: (arg[23])\}\)', c):
+                reads.add((m.group(1), m.group(2)))
+        if reads == {('arg3', 'arg2')}:
+            pass
+        elif reads and reads <= {('arg2', 'arg3'), ('arg2', 'arg2'), ('arg3', 'arg3'), ('arg3', 'arg2')}:
+            probs.append('the entry for (row, column) reads %s: with rows = j and columns = i the cell must show get(isize2(column, row))' % sorted(reads))
         else:
             rep.indet('E28.S4: entry closure returns %s' % sorted(cells))
             return
